@@ -2,6 +2,7 @@ import HT.Model.Decoder
 import HT.Model.Packet
 import HT.Model.Canary
 import HT.Model.Knock
+import HT.Model.RotFile
 /-!
 Line-protocol driver: one case per input line, `<model> <args…>`; one output line
 per case.  Core Lean only (so it links as an executable).
@@ -16,6 +17,7 @@ def dispatch (line : String) : String :=
   | "canloop" :: args => Can.loopDriver args
   | "uset" :: args => Knock.usetDriver args
   | "knock" :: args => Knock.knockDriver args
+  | "rot" :: args => Rot.driver args
   | _ => "bad-model"
 
 partial def loop (h : IO.FS.Stream) (out : IO.FS.Stream) : IO Unit := do
